@@ -109,6 +109,11 @@ def main():
                 f"observed={json.dumps(v.get('observed'))[:300]} note={v.get('note','')[:200]}"
             )
             out_lines.append(f"VIOLATION property={prop} replay={path}")
+        if core.SHARD_ERRORS:
+            if not nviol:
+                raise core.HarnessError(f"{len(core.SHARD_ERRORS)} shard(s) failed; first: {core.SHARD_ERRORS[0]}")
+            out_lines.append(f"note: {len(core.SHARD_ERRORS)} shard(s) of this check ended with a harness error (last line: {str(core.SHARD_ERRORS[0]).strip().splitlines()[-1][:200]}); violations found by the other shards are reported")
+            res.extra["shard_errors"] = len(core.SHARD_ERRORS)
         nd = res.extra.get("oracle_disagreements", 0)
         if nd:
             out_lines.append(f"note: {nd} case(s) dropped because reference model and real tool disagree (see evidence)")
